@@ -16,6 +16,10 @@ CLAIMS = {
    text="Same module as C01. TLC checks OutcomeOnce, OutcomeAllowed, ReleaseOnce, Conservation, NoLeak as invariants / action properties and RequestEnds, CloseReturns, CloseUnblocks as liveness under weak fairness of every driver thread (no state constraint), with deadlock detection. On recorded executions of a real connection TLC evaluates: one allowed outcome per call, every call returns (8 s watchdog = 200x the driver timeout), Close returns, each stream released at most once, observer finished/abandoned at most once, and at event-based quiescence AvailableStreams equals capacity minus the requests whose answer never came (both leak and over-release are flagged).",
    note="Liveness is proved for the bounded model under fairness; on the real code it is observed with watchdogs. Numeric real-time bounds are not proved.",
    tech=TECH + "TLC evaluation of safety invariants on recorded traces; TLC liveness checking of the model", ref="DESIGN.md section 7 C06"),
+ "C07": dict(cat="model_checking",
+   text="Writer.tla models deadlineContextWriter and writeCoalescer (semaphore, enqueue, flush with the byte-count attribution loop, a socket that accepts any prefix, the later closeWithError of the failing caller); TLC checks WholeFrames, NothingAfterPartial, OkImpliesWhole, NotStartedNoBytes, CountExact on all interleavings of 3 writers and shows that without the refuse-after-torn rule a whole frame can follow a torn one. Every bounded (mode, frame sizes <= 3x3, failure offset) case is executed on the real writers and the recorded results, byte stream and the fate of a further write are validated by TLC; concurrent writers over a byte-at-a-time yielding socket and the byte streams of real connections (concurrent requests, coalescing, injected write failure; frames expected by an independent encoder) are validated by TLC as well.",
+   note="Sockets are modelled as accepting a prefix and then failing; frame sizes in the exhaustive replay are tiny (the logic is size-independent); real connections are sampled.",
+   tech=TECH + "exhaustive TLC-generated case replay into the real writers and TLC validation of recorded byte streams", ref="DESIGN.md section 7 C07"),
  "C08": dict(cat="model_checking",
    text="Streams.tla models the allocator one atomic operation per step; TLC checks uniqueness, range, reserved id, counter exactness, no false exhaustion, Clear's report and termination on every interleaving of a bounded instance (real word size, 3 free ids straddling a word boundary). Every edge of the 2-thread state graph is replayed on the real allocator under a yield-point scheduler and the real state compared after each step; free-running goroutine executions on both capacities are validated by TLC against the abstract allocator.",
    note="Bounded instance (2-3 threads, 3 free ids); sync/atomic assumed sequentially consistent; larger capacities and thread counts covered only by recorded executions.",
